@@ -315,3 +315,10 @@ def run(ctx):
     ctx.run_clause("C07.c", c07c)
     ctx.run_clause("C07.d", c07d)
     ctx.run_clause("C07.e", c07e)
+    # the stored image is reused only if it can be decoded: a persisted value with a repeated interned handle is written as
+    # Source + References, and the decoder must register the Source with the interner (C15.c, C15.a), evaluated as C07.g
+    from . import C15
+    ctx.alias = {"C15.c": "C07.g", "C15.a": "C07.g"}
+    ctx.run_clause("C07.g", C15.c15c)
+    ctx.run_clause("C07.g", C15.c15a)
+    ctx.alias = {}
